@@ -19,7 +19,7 @@ PROP = "C11"
 def plan(tier, seed):
     k = 30 if tier == "quick" else 600
     shards = []
-    for kind in ("event", "cancel", "dividend", "oversize"):
+    for kind in ("event", "event_split_day", "cancel", "dividend", "oversize"):
         shards += [{"kind": kind, "seed": seed, "shard": i, "n": 150} for i in range(k)]
     return shards
 
@@ -128,6 +128,50 @@ def build_event(rng):
     return sorted(base + [ev], key=lambda t: t["date"])
 
 
+def build_event_split_day(rng):
+    """Labelled class: a SPLIT/UNSPLIT may share a date with trades of its security (the convention - before or
+    after that day's trades - is fixed by no property). The oracle here never consults the statute model for the
+    holding: it reads the matching pass's own day-end positions (hook H2), so it only demands that the pre-pass and
+    the matching pass agree with each other."""
+    for _ in range(20):
+        base = gen_ledger(rng, Opts(capital=rng.random() < 0.3, splits=True, strict_splits=False, n_sec=(1, 2),
+                                    steps=(4, 12), templates_p=0.3, dividends=False))[0]
+        if lc.split_trade_same_day(base):
+            break
+    else:
+        return None
+    tks = sorted({t["ticker"] for t in base if t["kind"] in ("SPLIT", "UNSPLIT")
+                  and any(u["ticker"] == t["ticker"] and u["date"] == t["date"] and u["kind"] in ("BUY", "SELL")
+                          for u in base)})
+    if not tks:
+        return None
+    tk = rng.choice(tks)
+    s = idle_date(rng, base, tk)
+    if s is None:
+        return None
+    kind = rng.choice(["CAPRETURN", "ACCUMULATION"])
+    amt = Fraction(rng.randint(1, 3000), 100)
+    ev = {"date": iso(s), "ticker": tk, "kind": kind, "amount": "1", "total": [dstr(amt), "GBP"], "_ev": True}
+    ev["fees" if kind == "CAPRETURN" else "tax"] = ["0", "GBP"]
+    out = sorted(base + [ev], key=lambda t: t["date"])
+    for t in out:
+        if t.get("_ev"):
+            t["_own_positions"] = True
+    return out
+
+
+def own_positions(snapshots, tk):
+    """[(date, matching pass's own net position of tk at that day's end)] from hook H2."""
+    out = []
+    for sn in snapshots or []:
+        if sn.get("phase") != "day":
+            continue
+        for t_, q_ in sn.get("positions", []):
+            if t_ == tk:
+                out.append((pdate(sn["date"]), fr(q_)))
+    return out
+
+
 def judge_event(var, oa, ob, cnt):
     viols = []
     base = unmarked(var)
@@ -138,8 +182,17 @@ def judge_event(var, oa, ob, cnt):
     tk, s, kind, net = ev["ticker"], pdate(ev["date"]), ev["kind"], event_net(ev)
     if any(t["ticker"] == tk and t["date"] == ev["date"] for t in base):
         return viols  # (minimiser) keep the event on an idle date
-    days, _, _ = hmrc.build_days(base)
-    pos = position_before(days, tk, s)
+    own = own_positions(oa.get("snapshots"), tk)
+    if ev.get("_own_positions"):
+        if not own and not oa.get("snapshots"):
+            viols.append({"clause": "hook-missing", "signature": "hook-missing", "detail": "no day-end snapshots"})
+            return viols
+        before = [q for (dd, q) in own if dd < s]
+        pos = before[-1] if before else ZERO
+        cnt["split_day_events"] += 1
+    else:
+        days, _, _ = hmrc.build_days(base)
+        pos = position_before(days, tk, s)
     A = lc.parse_report(oa["ok"]["report"])
     if "ok" not in ob:
         msg = ob.get("err", {}).get("message", str(ob))
@@ -199,6 +252,28 @@ def judge_event(var, oa, ob, cnt):
                                   "signature": "adjustment-reaches-later-acquisition",
                                   "detail": f"{tk} {d['date']} {k[0]} acquired {k[1]} (after the event of {s}): cost "
                                             f"{float(ma[k]['cost'])!r} -> {float(l['cost'])!r}"})
+    # "spread only over shares already held": once the matching pass's own position in the security has been exactly
+    # zero at a day end before the event, everything acquired up to that day is gone, so no leg drawn from those
+    # acquisitions may move. (Legs matched to acquisitions after that day are the F6 family and are not judged here.)
+    zero_days = [dd for (dd, q) in own if dd < s and q == 0]
+    if zero_days and not nonterm:
+        z = max(zero_days)
+        for d in lc.all_disposals(B):
+            if d["ticker"] != tk or d["date"] > z:
+                continue
+            ref = da.get((d["date"], d["ticker"]))
+            if not ref:
+                continue
+            ma = {(l["rule"], l["acq"]): l for l in lc.merged_legs(ref["legs"])}
+            for l in lc.merged_legs(d["legs"]):
+                k = (l["rule"], l["acq"])
+                if (k[1] is None or k[1] <= z) and k in ma:
+                    cnt["legs_before_a_sell_out_checked"] += 1
+                    if abs(l["cost"] - ma[k]["cost"]) > tolr:
+                        viols.append({"clause": "adjustment-reaches-shares-sold-before-the-event",
+                                      "signature": "adjustment-reaches-shares-sold-before-the-event",
+                                      "detail": f"{tk}: nothing held at the end of {z}, event on {s}, yet the {k[0]} leg of "
+                                                f"the {d['date']} disposal moved {float(ma[k]['cost'])!r} -> {float(l['cost'])!r}"})
     neg = negative_costs(B)
     if neg and not negative_costs(A):
         viols.append({"clause": "negative-allowable-cost", "signature": neg_signature(var, B),
@@ -452,7 +527,7 @@ def judge_oversize(var, oa, ob, cnt):
     return viols
 
 
-KINDS = {"event": (build_event, judge_event), "cancel": (build_cancel, judge_cancel),
+KINDS = {"event": (build_event, judge_event), "event_split_day": (build_event_split_day, judge_event), "cancel": (build_cancel, judge_cancel),
          "dividend": (build_dividend, judge_dividend), "oversize": (build_oversize, judge_oversize)}
 
 
@@ -471,7 +546,7 @@ def run_shard(desc):
             cases.append(var)
     reqs = []
     for var in cases:
-        reqs += [lc.calc_case(unmarked(var)), lc.calc_case(var)]
+        reqs += [lc.calc_case(unmarked(var), record=kind.startswith("event")), lc.calc_case(var)]
     obs = probe().run(reqs)
     for i, var in enumerate(cases):
         oa, ob = obs[2 * i], obs[2 * i + 1]
@@ -490,13 +565,16 @@ def run_shard(desc):
 def replay(case):
     var = case["txs"]
     _, judge = KINDS[case["op"]]
-    oa, ob = probe().run([lc.calc_case(unmarked(var)), lc.calc_case(var)])
-    return judge(var, oa, ob, Counter()), {"without": oa, "with": ob}
+    oa, ob = probe().run([lc.calc_case(unmarked(var), record=case["op"].startswith("event")), lc.calc_case(var)])
+    oa_brief = {k: v for k, v in oa.items() if k != "snapshots"}
+    return judge(var, oa, ob, Counter()), {"without": oa_brief, "with": ob}
 
 
-THRESHOLDS = {"oversize_never_sold_refused": 30, "events_took_effect": 800, "events_no_shares_held": 40, "legs_acquired_after_event": 300,
+THRESHOLDS = {"split_day_events": 1000, "legs_before_a_sell_out_checked": 1000, "oversize_never_sold_refused": 30, "events_took_effect": 800, "events_no_shares_held": 40, "legs_acquired_after_event": 300,
               "cancel_pairs": 800, "dividend_pairs": 800, "oversize_returns": 200, "absorbable_returns": 100}
 RULE = ("with/without metamorphic pairs: one extra CAPRETURN/ACCUMULATION at an idle date of a security (any position "
-        "relative to same-day, 30-day and pool matches and splits), a cancelling ACCUMULATION+CAPRETURN pair, one "
+        "relative to same-day, 30-day and pool matches and splits; plus a labelled class with SPLIT/UNSPLIT on trade dates "
+        "whose holding is read from the matching pass's own day-end positions, hook H2; no leg drawn from acquisitions "
+        "completely sold before the event may move), a cancelling ACCUMULATION+CAPRETURN pair, one "
         "extra DIVIDEND; plus capital returns sized just above/at/below the expenditure left in the tool's own report "
         "of the prefix ledger; sign check on every produced report; distinct by variant-ledger hash")
